@@ -545,6 +545,14 @@ def assembleLastHeaders (lastN : Nat) (pst : PeerState) (headers : List VH)
         | _, _ => .error (.index 68)
       else return none
 
+/-- the index of the header TAU is checked from: the first header after the reorg section, or
+the one after it when that is the genesis header (its epoch field has length 0, so the difficulty
+of its epoch cannot be computed from it) -/
+def tauStartIdx (headers : List VH) (reorg endIdx : Nat) : Nat :=
+  match headers[reorg]? with
+  | some h => if h.number = 0 && decide (reorg < endIdx) then reorg + 1 else reorg
+  | none => reorg
+
 /-- `SendLastStateProofProcess::execute`.  `boundary`/`samples` feed the requests built on the
 recheck paths; `boundaryG`/`samplesG` the from-genesis request after a long fork. -/
 def onProof (s : St) (p : Nat) (m : ProofMsg) (now : Nat) (boundary : Nat) (samples : List Nat)
@@ -580,7 +588,8 @@ def onProof (s : St) (p : Nat) (m : ProofMsg) (now : Nat) (boundary : Nat) (samp
           -- tau
           let tauFailed ← (if req.skipTau then pure false
             else if sampled ≠ 0 then
-              match m.headers[reorg]?, m.headers[reorg + sampled + lastNCount - 1]? with
+              match m.headers[tauStartIdx m.headers reorg (reorg + sampled + lastNCount - 1)]?,
+                  m.headers[reorg + sampled + lastNCount - 1]? with
               | some sh, some eh =>
                 match verifyTau sh.epoch sh.compact eh.epoch eh.compact s.tau with
                 | .pass => pure false
@@ -589,7 +598,8 @@ def onProof (s : St) (p : Nat) (m : ProofMsg) (now : Nat) (boundary : Nat) (samp
               | _, _ => .error (.index 69)
             else pure false : M Bool)
           if !req.skipTau && sampled ≠ 0 then
-            match m.headers[reorg]?, m.headers[reorg + sampled + lastNCount - 1]? with
+            match m.headers[tauStartIdx m.headers reorg (reorg + sampled + lastNCount - 1)]?,
+                m.headers[reorg + sampled + lastNCount - 1]? with
             | some sh, some eh =>
               if verifyTau sh.epoch sh.compact eh.epoch eh.compact s.tau = .invalidCompactTarget then
                 return ⟨s, .ban 433, []⟩
